@@ -211,7 +211,13 @@ def selftest(ctx):
             if blocks[0]["ins"][0] == blocks[0]["ins"][1]:
                 continue
         elif kind == 3:
-            e["edges"].pop(0)                                          # an edge vanishes
+            # an edge between two native instructions vanishes (an edge inside a multi-block instruction, e.g. the
+            # two arms of slt, is invisible at the native level - that is C02/C05's subject - and is left alone)
+            byid = {x["i"]: [a for a in x["ins"] if a[0] % 4 == 0] for x in e["blocks"]}
+            idx = [k for k, ed in enumerate(e["edges"]) if byid.get(ed["h"]) and byid.get(ed["t"]) and byid[ed["h"]][-1] != byid[ed["t"]][0]]
+            if not idx:
+                continue
+            e["edges"].pop(idx[0])
         elif kind == 4:
             e["edges"][0]["t"] = 99999                                 # edge to a missing block
         elif kind == 5:
